@@ -24,14 +24,14 @@ func init() {
 		ID: "C01", Level: "exploration",
 		Rule: "cases = chains driven by the coinswap director (add/remove/one-sided add/remove/4 swap kinds x single/double hop/donations/fee changes, amounts from magnitude classes up to 2^128 with tight/loose bounds) plus direct calls of GetInputPrice/GetOutputPrice; a case is non-trivial when the tx succeeded (or the pure call returned) and the share-value or leg relation was evaluated; distinct = distinct (op kind, hop, magnitude class of reserves, magnitude of amount, fee config, relation outcome strict/equal)",
 		Assume: []string{"pool reserves are the bank balances of the pool escrow address in the two pool denoms", "fee in force is the params value read before the tx", "Int overflow panics (beyond 256 bit) are rejections"},
-		Cases:  func(t string) int { return tierN(t, 6, 64) },
+		Cases:  func(t string) int { return tierN(t, 16, 64) },
 		Run:    func(run *ev.Run, c int) { runCoinswap(run, c, "C01") },
 	})
 	Register(&Spec{
 		ID: "C02", Level: "exploration",
 		Rule: "same director as C01; monitor = complete bank balance sheet (every account, every denom, every supply) before/after every tx against the expected-delta model of the message; non-trivial = successful coinswap tx whose full delta was compared; distinct = distinct (msg kind, hop, recipient kind, bound kind, deadline kind, pool-created flag)",
 		Assume: []string{"tx fees are zero in the harness so the ante handler moves no coins", "a failed tx leaves no trace because BaseApp drops its branch (checked at the next observation point)"},
-		Cases:  func(t string) int { return tierN(t, 6, 64) },
+		Cases:  func(t string) int { return tierN(t, 16, 64) },
 		Run:    func(run *ev.Run, c int) { runCoinswap(run, c, "C02") },
 	})
 }
@@ -80,12 +80,12 @@ func runCoinswap(run *ev.Run, c int, mode string) {
 	// magnitude regime of this chain: small chains find residue effects, large ones overflow edges
 	regimes := []int{22, 62, 66, 100, 128, 128}
 	maxBits := regimes[c%len(regimes)]
-	blocks := 60
+	blocks := 250
 	if run.Thorough() {
-		blocks = 250
+		blocks = 1500
 	}
 	if mode == "C01" && c%3 == 0 {
-		d.pureProbe(tierN(run.Tier, 40000, 400000))
+		d.pureProbe(tierN(run.Tier, 60000, 1000000))
 	}
 	for b := 0; b < blocks; b++ {
 		d.touched = map[string]bool{}
